@@ -64,6 +64,23 @@ def handle (fields : List String) : String :=
     | .file p t => "file " ++ encStr p ++ " " ++ (String.ofList t).replace "\n" "<NL>"
     | .usage => "usage"
     | .noSuchFile p => "nosuchfile " ++ encStr p
+  | ["rx_search", mode, wire, subj, pos, endpos, ngroups] =>
+    match Rx.parseWire wire with
+    | none => "bad-regex"
+    | some r =>
+      let x := mkCtx (decStr subj) endpos.toNat!
+      let res := match mode with
+        | "search" => r.search x pos.toNat!
+        | "match" => r.matchAt x pos.toNat!
+        | _ => r.fullMatchAt x pos.toNat!
+      match res with
+      | none => "none"
+      | some mt =>
+        let gs := (List.range (ngroups.toNat! + 1)).map (fun g =>
+          match mt.group g with
+          | some (a, b) => toString a ++ "," ++ toString b
+          | none => "-")
+        ";".intercalate gs
   | ["ping"] => "pong"
   | _ => "bad-op"
 
